@@ -321,6 +321,31 @@ pub(crate) mod alloc {
         fn serialization_size(&self) -> usize {
             // Fetch size in bytes of each Polynomial
             let poly_size = self.arithmetic.q_m.0.len() * BlsScalar::SIZE;
+            // Every fixed polynomial is written with its own length. They are
+            // not all as long as `q_m`: a vanishing leading coefficient
+            // shortens a polynomial, so `q_m` can be shorter than the others
+            // and a buffer sized from it alone would silently truncate the
+            // encoding. Never reserve less than the actual lengths need.
+            let actual_poly_size = [
+                &self.arithmetic.q_m.0,
+                &self.arithmetic.q_l.0,
+                &self.arithmetic.q_r.0,
+                &self.arithmetic.q_o.0,
+                &self.arithmetic.q_f.0,
+                &self.arithmetic.q_c.0,
+                &self.arithmetic.q_arith.0,
+                &self.logic.q_logic.0,
+                &self.range.q_range.0,
+                &self.fixed_base.q_fixed_group_add.0,
+                &self.variable_base.q_variable_group_add.0,
+                &self.permutation.s_sigma_1.0,
+                &self.permutation.s_sigma_2.0,
+                &self.permutation.s_sigma_3.0,
+                &self.permutation.s_sigma_4.0,
+            ]
+            .iter()
+            .map(|polynomial| polynomial.len() * BlsScalar::SIZE)
+            .sum::<usize>();
             // Fetch size in bytes of each Evaluations
             let eval_size = self.arithmetic.q_m.1.evals.len() * BlsScalar::SIZE
                 + EvaluationDomain::SIZE;
@@ -339,7 +364,9 @@ pub(crate) mod alloc {
             let i64_num = poly_num + 2;
 
             // Calculate the amount of bytes needed to serialize `ProverKey`
-            poly_size * poly_num + eval_size * eval_num + u64::SIZE * i64_num
+            core::cmp::max(poly_size * poly_num, actual_poly_size)
+                + eval_size * eval_num
+                + u64::SIZE * i64_num
         }
 
         /// Serializes a [`ProverKey`] struct into a Vec of bytes.
